@@ -445,6 +445,22 @@ func cliCase(o *kit.Out, r *kit.Rand, idx int) {
 		args = []string{"run", "file", cfgFile("strict.yaml", name, "", n)}
 		o.Count("cli", "config file without tolerances after a run from a file with generous ones")
 	}
+	// profiling options of the root command ride along: the verdict and the returned error are the run's
+	if !viaFile && idx%6 == 4 {
+		pdir, perr := os.MkdirTemp("", "verif_c08p_")
+		if perr == nil {
+			defer os.RemoveAll(pdir)
+			switch (idx / 6) % 3 {
+			case 0:
+				args = append(args, "--memprofile", filepath.Join(pdir, "mem.prof"))
+			case 1:
+				args = append(args, "--cpuprofile", filepath.Join(pdir, "cpu.prof"))
+			default:
+				args = append(args, "--memprofile", filepath.Join(pdir, "mem.prof"), "--cpuprofile", filepath.Join(pdir, "cpu.prof"))
+			}
+			o.Count("cli", "with profiling options")
+		}
+	}
 	var err error
 	if !viaFile && omitted > 0 && (bare || idx%3 != 1) {
 		// an earlier execution in this process (another instance, another trigger mode) was given
